@@ -381,17 +381,21 @@ def gen_reduce(g):
     rng = g.rng
     op = rng.choice(REDUCE_INT * 2 + REDUCE_FLOAT)
     U = g.pick_axes(rng.randint(1, 4), maxprod=300)
-    if rng.random() >= 0.1:          # 10%: a reduction over no axis at all (the elementary operation still has to be applied)
+    if rng.random() >= 0.15:         # 15%: a reduction over no axis at all (the elementary operation still has to be applied)
         mark_some(rng, U, 1, 2)
+    elif rng.random() < 0.6:
+        op = rng.choice(["var", "std", "count_nonzero", "any", "all", "mean", "logsumexp"])   # not the identity on one element / changes the type
     ins = [g.arrange(g.perm(U))]
     outs = [g.arrange(g.perm([a for a in U if not a.marked]))]
     sh = shape_of(ins[0])
     if op in ("any", "all"):
-        arr = int_data(rng, sh, 0, 1, ramp=False).astype(bool)
+        arr = int_data(rng, sh, 0, 1, ramp=False).astype(bool) if rng.random() < 0.6 else int_data(rng, sh, -1, 2, ramp=False)
     elif op == "prod":
         arr = int_data(rng, sh, -2, 2, ramp=False)
     elif op in REDUCE_FLOAT:
         arr = int_data(rng, sh, -4, 4, ramp=False).astype(np.float64)
+        if op == "logsumexp" and rng.random() < 0.4:
+            arr = arr + 900.0 * int_data(rng, sh, -1, 1, ramp=False)
     else:
         arr = int_data(rng, sh)
     return Call("reduce", op, ins, outs, [arr])
@@ -455,6 +459,9 @@ def gen_preserve(g):
         extra["shift"] = rng.randint(-3, 3) if nm == 1 and rng.random() < 0.5 else tuple(rng.randint(-3, 3) for _ in range(nm))
     if op in ("softmax", "log_softmax"):
         arr = int_data(rng, sh, -3, 3, ramp=False).astype(np.float64)
+        if rng.random() < 0.4:
+            # elements (hence whole slices) at very different scales: each slice is normalised by its own maximum
+            arr = arr + 900.0 * int_data(rng, sh, -1, 1, ramp=False)
     elif op in ("sort", "argsort"):
         # distinct values along the sorted axis so that argsort is unambiguous
         n = int(np.prod(sh))
